@@ -1117,10 +1117,13 @@ def _worker_daemon(args):
     os.chmod(wdir, 0o755)
     env = Env(wdir, rng)
     cfg = DAEMON_CONFIGS[shard % len(DAEMON_CONFIGS)]
+    tcp_ok = busproc.tcp_loopback_available()
     conf = busproc.make_config("@SOCK@", auth=cfg["auth"] or (), allow_anonymous=cfg["anon"],
-                               extra="  <listen>tcp:host=127.0.0.1,port=0</listen>")
+                               extra="  <listen>tcp:host=127.0.0.1,port=0</listen>" if tcp_ok else "")
     mechs = None if cfg["auth"] is None else [m.encode() for m in cfg["auth"]]
     box = {"d": None, "ctl": None, "n": 0}
+    if not tcp_ok:
+        part.count("daemon:tcp-loopback-unavailable(TCP conversations skipped)")
 
     def start():
         box["n"] += 1
@@ -1133,7 +1136,7 @@ def _worker_daemon(args):
         for t, kv in d.addresses():
             if t == "tcp":
                 d.tcp_addr = ("127.0.0.1", int(kv["port"]))
-        if d.tcp_addr is None:
+        if d.tcp_addr is None and tcp_ok:
             return False
         os.chmod(d.sock, 0o777)
         box["ctl"] = _control(d, cfg, env)
@@ -1163,11 +1166,15 @@ def _worker_daemon(args):
         while done < count and guard < count * 4:
             guard += 1
             uid = rng.choice(SOCK_UIDS)
+            if uid is None and not tcp_ok:
+                uid = 0
             sc, items = gen_script(rng, mechs, uid, daemon=True)
             if uid is None and done % 5 == 0:
                 uid = rng.choice(SOCK_UIDS)          # the forced cases claim a uid; over TCP every third of them (below)
-                if uid is None or done % 15 == 0:
+                if (uid is None or done % 15 == 0) and tcp_ok:
                     uid = None
+                elif uid is None:
+                    uid = 0
             if sc.startswith("long") and sum(len(i[1]) for i in items if i[0] == "raw") > 40000 and rng.random() < 0.5:
                 continue
             if done % 5 == 0:
